@@ -9,7 +9,7 @@ through a script of next/send/throw/close) and the outcome is canonicalised:
 exception class code, identity of result / exception object (`is`), journal of the body with the
 identity of every bound argument (`is` against the objects of the call), remaining length of
 one-shot iterators.  Never hangs: no loops over user data, generators are stepped a bounded number of times."""
-import sys, json, os, inspect, re, importlib.util, linecache, operator, functools, types
+import sys, json, os, inspect, re, importlib.util, linecache, operator, functools, types, collections, collections.abc
 import universe as U
 import excs
 import p_names as N
@@ -220,10 +220,7 @@ class Run:
                 entry[code] = ['kws', [N.pcode(k) for k in o], all(any(s == [3, N.pcode(k)] for s in self.classify(v)) for k, v in o.items())]
             else:
                 entry[code] = ['one', self.classify(o)]
-        consumed = []
-        for k, (it, n) in self.iters.items():
-            if operator.length_hint(it) != n:
-                consumed.append(list(k))
+        consumed = [list(k) for k, its in self.iters.items() if advanced(its)]
         return {'bind': entry, 'consumed': consumed}
 
     inner_call = None
@@ -286,6 +283,33 @@ class Run:
         return -2
 
 
+LIST_ITER = type(iter([]))
+
+
+def find_iters(o, acc=None, depth=0):
+    """every one-shot iterator inside a rendered value (not inside another iterator), with what it has still to give"""
+    acc = [] if acc is None else acc
+    if depth > 8:
+        return acc
+    if isinstance(o, LIST_ITER):
+        acc.append((o, operator.length_hint(o)))
+    elif isinstance(o, (list, tuple, set, frozenset, collections.deque)):
+        for x in list(o):
+            find_iters(x, acc, depth + 1)
+    elif isinstance(o, dict):
+        for k, x in list(o.items()):
+            find_iters(k, acc, depth + 1)
+            find_iters(x, acc, depth + 1)
+    elif isinstance(o, (collections.abc.KeysView, collections.abc.ValuesView, collections.abc.ItemsView)):
+        for x in list(o):
+            find_iters(x, acc, depth + 1)
+    return acc
+
+
+def advanced(its):
+    return any(operator.length_hint(it) != n for it, n in its)
+
+
 def exc_code(ex):
     return N.exc_code(excs.path_of(type(ex)))
 
@@ -312,8 +336,8 @@ def run_case(case):
             d = U.render_val(p['default'])
             extra[f'D{i}'] = d
             r.objs[(4, p['name'])] = d
-            if p['default'][0] == 'iter':
-                r.iters[(4, p['name'])] = (d, len(p['default'][1]))
+            if find_iters(d):
+                r.iters[(4, p['name'])] = find_iters(d)
     if case['ret'] is not None:
         extra['R'] = rann(case['ret'])
     if case.get('prop_get_ret') is not None:
@@ -326,6 +350,7 @@ def run_case(case):
     elif case['body'][0] == 'ret':
         r.result_obj = U.render_val(case['body'][1])
         reified['body'] = ['ret', U.reify_val(r.result_obj, case['body'][1])]
+        r.result_iters = find_iters(r.result_obj)
     else:
         import p_common_msgs
         r.exc_obj = excs.cls_of(case['body'][1])(p_common_msgs.EXC_MSGS[case.get('exc_msg', 0)])
@@ -395,8 +420,8 @@ def run_case(case):
             reified['args'].append(U.reify_val(o, v))
         args.append(o)
         r.objs[(2, i)] = o
-        if v[0] == 'iter':
-            r.iters[(2, i)] = (o, len(v[1]))
+        if o is not None and find_iters(o):
+            r.iters[(2, i)] = find_iters(o)
     kwargs = {}
     for kname, v in case['kwargs']:
         if kname == 0 and case.get('self_kw'):
@@ -411,8 +436,8 @@ def run_case(case):
             reified['kwargs'].append([kname, U.reify_val(o, v)])
         kwargs[N.pname(kname)] = o
         r.objs[(3, kname)] = o
-        if v[0] == 'iter':
-            r.iters[(3, kname)] = (o, len(v[1]))
+        if o is not None and find_iters(o):
+            r.iters[(3, kname)] = find_iters(o)
     recv_objs = {}
     if K is not None:
         k_inst, s_inst = K.__new__(K), Sub.__new__(Sub)
@@ -514,6 +539,8 @@ def run_case(case):
                 op_results = run_ops(r, out, case)
             elif case['body'][0] == 'ret' and style != 'property':
                 out_res['same_object'] = out is r.result_obj
+                # the state of the one-shot iterators inside the result at the moment the caller receives it
+                out_res['result_consumed'] = advanced(getattr(r, 'result_iters', []))
             elif style == 'property':
                 out_res['same_object'] = True
         except BaseException as ex:
